@@ -546,6 +546,7 @@ Theorem swap_two_fields : forall f0 f1 z, offset f0 = 0 -> width f0 <> 0 -> widt
 Proof. exact swap_two_fields_full. Qed.
 Print Assumptions swap_two_fields.
 
+(* the two component-index conjuncts are TIE CHECKS (facts read off the AST) *)
 Theorem dVdz_invariant :
   (forall T ts, wf_relab (length ts) T -> dVdz_point (relabel_cov T ts) = dVdz_point ts) /\
   dVdz_dPhidz_component = 1%nat /\ dVdz_fields_component = 0%nat.
@@ -639,9 +640,10 @@ Proof.
   - intros j Hj. destruct j as [|[|j]]; cbn; try lra; lia.
 Qed.
 
-(** relaxation towards the minimiser's answer and WallParams arithmetic act on widths and
-    offsets separately and componentwise: the pinned offset stays 0 *)
-Theorem relaxation_keeps_pin :
+(** TIE CHECK (restates the generated definitions; proved by ring): relaxation towards the
+    minimiser's answer and WallParams arithmetic act on widths and offsets separately and
+    componentwise *)
+Theorem relaxation_and_arith_tie :
   (forall m, relax_params m 0 0 = 0) /\
   (forall m x, relax_params m x x = x) /\
   (forall m x y, relax_params m x y = m * x + (1 - m) * y) /\
@@ -654,8 +656,64 @@ Theorem relaxation_keeps_pin :
                    WallParams_div_widths aw ao k = aw / k /\
                    WallParams_div_offsets aw ao k = ao / k).
 Proof. exact relax_and_arith. Qed.
-Print Assumptions relaxation_keeps_pin.
+Print Assumptions relaxation_and_arith_tie.
 
+(** composed: whatever the minimiser returns (any vector x), whatever the multiplier, the
+    first offset of the new wall parameters is 0 when the incoming first offset was 0:
+    clipping keeps 0, _toWallParams puts 0 in front, relaxation of 0 towards 0 is 0 *)
+Theorem pinned_offset_stays_zero : forall b n x m, offLo b < 0 < offHi b ->
+  relax_params m (nth 0 (toWallParams_offsets n x) 0) (clip_offsets b 0) = 0.
+Proof.
+  intros b n x m Hb. rewrite (proj1 (clip_box b Hb)).
+  unfold toWallParams_offsets. cbn [app nth]. apply (proj1 relax_and_arith).
+Qed.
+Print Assumptions pinned_offset_stays_zero.
+
+(** the box of [objective_covariant_same_pin], instantiated with the configured bounds, is
+    exactly the box scipy.optimize.minimize receives for the packed start vector *)
+Theorem same_pin_box_is_minimizer_box : forall b n fs, (1 <= n)%nat -> length fs = n ->
+  offset (nth 0 fs wf0) = 0 ->
+  (feasible n (thickLo b / Tnucl b) (thickHi b / Tnucl b) (offLo b) (offHi b) fs <->
+   forall k, (k < 2 * n - 1)%nat ->
+     nth k (minimize_lb b n) 0 <= nth k (minimize_x0 (map width fs) (map offset fs)) 0
+       <= nth k (minimize_ub b n) 0).
+Proof.
+  intros b n fs Hn Lf O0.
+  destruct (minimizer_bounds_aligned b n (map width fs) (map offset fs)
+              ltac:(now rewrite map_length) ltac:(now rewrite map_length) Hn)
+    as [_ [_ [W B]]].
+  assert (Ew : forall k, (k < n)%nat -> nth k (map width fs) 0 = width (nth k fs wf0))
+    by (intros k Hk; apply nth_map_in; now rewrite Lf).
+  assert (Eo : forall k, (k < n)%nat -> nth k (map offset fs) 0 = offset (nth k fs wf0))
+    by (intros k Hk; apply nth_map_in; now rewrite Lf).
+  split.
+  - intros [_ [_ [Fw Fo]]] k Hk. destruct (Nat.lt_ge_cases k n) as [Hl|Hg].
+    + destruct (W k Hl) as [E1 [E2 E3]]. rewrite E1, E2, E3, Ew by exact Hl. apply Fw, Hl.
+    + assert (Hj : (1 <= k - n + 1 < n)%nat) by lia.
+      destruct (B (k - n + 1)%nat Hj) as [E1 [E2 [E3 _]]].
+      replace (n + (k - n + 1) - 1)%nat with k in E1, E2, E3 by lia.
+      rewrite E1, E2, E3, Eo by lia. apply Fo, Hj.
+  - intros H. split; [exact Lf|]. split; [exact O0|]. split.
+    + intros j Hj. destruct (W j Hj) as [E1 [E2 E3]].
+      specialize (H j ltac:(lia)). rewrite E1, E2, E3, Ew in H by exact Hj. exact H.
+    + intros j Hj. destruct (B j Hj) as [E1 [E2 [E3 _]]].
+      specialize (H (n + j - 1)%nat ltac:(lia)). rewrite E1, E2, E3, Eo in H by lia. exact H.
+Qed.
+Print Assumptions same_pin_box_is_minimizer_box.
+
+(** the hypotheses of [objective_covariant_same_pin] are satisfiable by a genuine
+    relabelling: three fields, first one kept (reflected and shifted), the other two swapped *)
+Example same_pin_T3 :
+  wf_relab 3 [(0%nat, -1, 5); (2%nat, 1, 0); (1%nat, 1, -3)] /\
+  t_idx (nth 0 [(0%nat, -1, 5); (2%nat, 1, 0); (1%nat, 1, -3)] (0%nat, 0, 0)) = 0%nat.
+Proof.
+  split; [|reflexivity]. split.
+  - cbn. apply perm_skip, perm_swap.
+  - repeat constructor; cbn; lra.
+Qed.
+
+(* the conjuncts about the axis constants, takeSlice over field types and the order of
+   fieldsWithEndpoints are TIE CHECKS by unfolding the generated definitions *)
 (** Fields helpers commute with a permutation of the columns (= relabelling of fields) *)
 Theorem fields_axes : forall (A : Type) (d : A) (p : list nat) (M lo hi : list (list A)),
   overFieldPoints = 0%nat /\ overFieldTypes = 1%nat /\
